@@ -303,8 +303,34 @@ def gen_program(r, nthreads, style):
     return seq
 
 
+def gen_epoch_program(r):
+    """2-3 epochs: myth_init_ex(stack size S, workers) ... myth_fini, with default-size threads that
+    are alive at the same time in every epoch (parent-first creation, joined after all are created),
+    so that the free lists are full at each myth_fini and the next epoch allocates many stacks"""
+    seq, tid = [], 0
+    S = r.choice([16384, 32768, 65536])
+    for ep in range(r.rng(2, 3)):
+        if ep:
+            S = max(8192, r.choice([S // 2, S, 2 * S, 2 * S, 4 * S]))
+        seq.append("E%d:%d" % (S, r.rng(1, 4)))
+        n = r.rng(8, 24)
+        ids = []
+        for _ in range(n):
+            size = r.choice([-1, 0, 0, 0, 0, 0, 8192, 20000])
+            cf = 1 if size == -1 else r.choice([0, 0, 0, 1])
+            det = r.choice([0, 0, 0, 0, 0, 3]) if size != -1 else 0
+            seq.append("C%d:%d:%d:%d:%d:%d:%d" % (tid, size, det, cf, r.rng(1, 3), 1 if r.chance(1, 8) else 0, r.choice([-1, 0])))
+            if det == 0:
+                ids.append(tid)
+            tid += 1
+        r.shuffle(ids)
+        for i in ids:
+            seq.append("J%d" % i)
+    return seq
+
+
 def run_program(libx, ops, nw, timeout=40):
-    env = dict(os.environ, MYTH_NUM_WORKERS=str(nw))
+    env = dict(os.environ, MYTH_NUM_WORKERS=str(max(nw, 1)))
     try:
         p = subprocess.run([libx] + ops, stdout=subprocess.PIPE, stderr=subprocess.PIPE, env=env, timeout=timeout,
                            text=True, errors="replace")
@@ -318,6 +344,13 @@ def run_program(libx, ops, nw, timeout=40):
 
 class Trace:
     pass
+
+
+def ledger_nw(ops, nw, t):
+    """number of workers of the first epoch"""
+    if ops and ops[0].startswith("E"):
+        return int(ops[0].split(":")[1])
+    return max(nw, t.header.get("nw", nw))
 
 
 def parse_trace(out):
@@ -365,10 +398,24 @@ def lib_oracle(t):
         return None
 
     for n, (rank, eid, obj, val, sp, extra) in enumerate(t.events):
+        if eid == "epoch":
+            # myth_fini + myth_init_ex: every free list is dropped with the old environments; from
+            # here on a default stack extends over the default size of THIS epoch
+            gsz = extra
+            for s in recs.values():
+                if s["state"] == "free":
+                    s["state"] = "dropped"
+            for d in desc.values():
+                if d["state"] == "released":
+                    d["state"] = "dropped"
+            pending.clear(); cbof.clear(); lastpt.clear()
+            toks.append("%d,epoch,%d,-1" % (rank, val))
+            continue
         s_here = where(sp)
         S = s_here["tag"] if s_here else -1
         if s_here and s_here["state"] != "live":
-            bad.append("event %d (%s on worker %d): the worker executes on stack S%d, which is in a free list" % (n, eid, rank, S))
+            bad.append("event %d (%s on worker %d): the worker executes on stack S%d, which is %s" % (
+                n, eid, rank, S, "in a free list" if s_here["state"] == "free" else "cached in a list dropped at the last myth_fini"))
         if eid == "alloc.desc":
             d = desc.get(obj)
             if d and d["state"] == "live":
@@ -591,12 +638,14 @@ def run(ctx):
             ("big", 80), ("mix", 180), ("mix", 30), ("mix", 400)]
     for style, nt in plan:
         progs.append((style, gen_program(r, nt, style)))
+    for _ in range(3 if not ctx.thorough else 12):
+        progs.append(("epoch", gen_epoch_program(r)))
     reps = 2 if not ctx.thorough else 8
     lib_fail, model_rej, runs, nev, ninf = [], [], 0, 0, 0
     dist = {}
     ledger_lines, ledger_meta = [], []
     for style, ops in progs:
-        for nw in (1, 2, 3, 4):
+        for nw in ((1, 2, 3, 4) if not ops[0].startswith("E") else (0, 0)):   # epoch programs set their own worker counts
             for rep in range(reps):
                 if len(lib_fail) >= 2:
                     continue          # enough failing inputs; do not spend the budget on hanging runs
@@ -611,7 +660,7 @@ def run(ctx):
                 if bad:
                     lib_fail.append({"ops": ops, "workers": nw, "messages": bad[:12], "events": len(t.events),
                                      "result": t.result, "stderr": err[-400:]})
-                ledger_lines.append("ledger %d %s" % (max(nw, t.header.get("nw", nw)), " ".join(toks)))
+                ledger_lines.append("ledger %d %s" % (ledger_nw(ops, nw, t), " ".join(toks)))
                 ledger_meta.append((ops, nw))
     lres, lrc, lraw = vlib.run_lines([drv], ledger_lines, timeout=900)
     for i, line in enumerate(ledger_lines):
@@ -707,7 +756,7 @@ def replay(ctx, path):
             t = parse_trace(out)
             bad = judge_run(t, rc)
             ob, toks = lib_oracle(t)
-            res, _, _ = vlib.run_lines([drv], ["ledger %d %s" % (max(nw, t.header.get("nw", nw)), " ".join(toks))])
+            res, _, _ = vlib.run_lines([drv], ["ledger %d %s" % (ledger_nw(ops, nw, t), " ".join(toks))])
             print("run %d: workers %d events %d result %s" % (rep, nw, len(t.events), t.result))
             print("  oracle:", (bad + ob)[:5] or "holds")
             print("  model: ", res[0][:300] if res else None)
